@@ -91,18 +91,18 @@ pub fn class_of(line: &str) -> &str {
     line.split(' ').next().unwrap_or("")
 }
 
-/// pipe request lines through the compiled Lean driver (in parallel chunks), one answer per line
+/// pipe request lines through the compiled Lean driver, one answer per line. The requests are dealt out to the
+/// worker processes round-robin (request i goes to worker i mod n), so that a run of expensive neighbours - the large
+/// messages of one generator block - is spread over all of them; the answers are put back in request order
 pub fn run_driver(driver: &str, ops: &[&str]) -> Vec<String> {
     if ops.is_empty() {
         return vec![];
     }
-    let workers = std::thread::available_parallelism().map(|n| n.get()).unwrap_or(4).min(16);
-    let chunk = ((ops.len() + workers - 1) / workers).max(1);
-    let mut out: Vec<String> = Vec::with_capacity(ops.len());
+    let workers = std::thread::available_parallelism().map(|n| n.get()).unwrap_or(4).min(16).min(ops.len());
+    let mut out: Vec<String> = vec!["driver-died".to_string(); ops.len()];
     std::thread::scope(|s| {
-        let handles: Vec<_> = ops
-            .chunks(chunk)
-            .map(|part| {
+        let handles: Vec<_> = (0..workers)
+            .map(|w| {
                 s.spawn(move || {
                     let mut child = Command::new(driver)
                         .stdin(Stdio::piped())
@@ -110,7 +110,9 @@ pub fn run_driver(driver: &str, ops: &[&str]) -> Vec<String> {
                         .spawn()
                         .expect("cannot start the Lean driver");
                     let mut stdin = child.stdin.take().unwrap();
-                    let input: String = part.iter().map(|l| format!("{}\n", l)).collect();
+                    let mut input = String::new();
+                    let mut k = w;
+                    while k < ops.len() { input.push_str(ops[k]); input.push('\n'); k += workers; }
                     let writer = std::thread::spawn(move || {
                         let _ = stdin.write_all(input.as_bytes());
                     });
@@ -118,16 +120,15 @@ pub fn run_driver(driver: &str, ops: &[&str]) -> Vec<String> {
                     let _ = writer.join();
                     let text = String::from_utf8_lossy(&output.stdout).to_string();
                     let lines: Vec<String> = text.lines().map(|l| l.to_string()).collect();
-                    (lines, part.len())
+                    (w, lines)
                 })
             })
             .collect();
         for h in handles {
-            let (lines, want) = h.join().unwrap();
-            let got = lines.len();
-            out.extend(lines);
-            for _ in got..want {
-                out.push("driver-died".to_string());
+            let (w, lines) = h.join().unwrap();
+            for (j, line) in lines.into_iter().enumerate() {
+                let at = w + j * workers;
+                if at < out.len() { out[at] = line; }
             }
         }
     });
